@@ -144,7 +144,8 @@ class Reader:
         self.stop = stop
         self.params = list(cls._parameters)
         self.memo = {}
-        self.funcs_seen = []  # (owner, attr, fn) visited (for the site scan)
+        self.funcs_seen = []  # (owner, fn) visited
+        self.variadic = False  # some reached member slices `self.operands[a:b]` (operands beyond _parameters)
 
     def reads(self, attr, after=None, stack=()):
         key = (attr, after)
@@ -173,6 +174,17 @@ class Reader:
         args = node.args.posonlyargs + node.args.args
         selfname = args[0].arg if args else "self"
         out = set()
+        for n in ast.walk(node):
+            if (
+                isinstance(n, ast.Subscript)
+                and isinstance(n.slice, ast.Slice)
+                and n.slice.lower is not None  # a tail `[len(self._parameters):]`, not the prefix copy
+                and isinstance(n.value, ast.Attribute)
+                and n.value.attr == "operands"
+                and isinstance(n.value.value, ast.Name)
+                and n.value.value.id == selfname
+            ):
+                self.variadic = True
         for n in ast.walk(node):
             if not isinstance(n, ast.Attribute):
                 continue
@@ -206,16 +218,173 @@ class Reader:
                     out.add(ALL)
         return out
 
-    def expand(self, s):
+    def expand(self, s, variadic):
         if ALL in s:
-            return list(self.params) + ["*"]
-        return [p for p in self.params if p in s] + sorted(x for x in s if x not in self.params and x == "*")
+            return list(self.params) + (["*"] if variadic else [])
+        return [p for p in self.params if p in s]
+
+
+class MustReader(Reader):
+    """Operands the member DEFINITELY reads on every normal path (an under-approximation, used
+    for the NAME: the coverage obligation `semantic ⊆ tokenized` is sound when `tokenized` is
+    under- and `semantic` over-approximated).
+
+    statements are followed in order; `if t: A else: B` contributes reads(t) ∪ (must(A) ∩ must(B))
+    (when A ends in return/raise, B is the rest of the function); the token-cache guard
+    `if not self._determ_token:` is transparent; `a or b` / `a and b` / `x if t else y` contribute
+    only their first-evaluated operand (plus the intersection of the alternatives); the normal
+    path of `try` is its body; loop bodies and comprehension elements count (an empty iterable
+    carries no data to depend on); nested function/lambda bodies do not."""
+
+    def _norm(self, s):
+        if ALL in s:
+            return set(s) | set(self.params) | {"*"}
+        return set(s)
+
+    def _inter(self, a, b):
+        return self._norm(a) & self._norm(b)
+
+    def reads_fn(self, fn, owner, stack):
+        node, _file, _line = _func_ast(fn)
+        if node is None or not isinstance(node, (ast.FunctionDef, ast.AsyncFunctionDef)):
+            return set()
+        self.funcs_seen.append((owner, fn))
+        args = node.args.posonlyargs + node.args.args
+        self._selfname = args[0].arg if args else "self"
+        for n in ast.walk(node):
+            if (
+                isinstance(n, ast.Subscript)
+                and isinstance(n.slice, ast.Slice)
+                and n.slice.lower is not None
+                and isinstance(n.value, ast.Attribute)
+                and n.value.attr == "operands"
+                and isinstance(n.value.value, ast.Name)
+                and n.value.value.id == self._selfname
+            ):
+                self.variadic = True
+        ctx = (owner, stack, self._selfname)
+        out, _term = self._block(node.body, ctx)
+        return out
+
+    # ---- statements
+    def _block(self, stmts, ctx):
+        out = set()
+        for i, st in enumerate(stmts):
+            if isinstance(st, (ast.FunctionDef, ast.AsyncFunctionDef, ast.ClassDef, ast.Import, ast.ImportFrom, ast.Pass, ast.Global, ast.Nonlocal)):
+                continue
+            if isinstance(st, (ast.Return, ast.Raise)):
+                for v in (getattr(st, "value", None), getattr(st, "exc", None)):
+                    if v is not None:
+                        out |= self._expr(v, ctx)
+                return out, True
+            if isinstance(st, ast.If):
+                out |= self._expr(st.test, ctx)
+                body, bterm = self._block(st.body, ctx)
+                if self._is_cache_guard(st.test, ctx):
+                    out |= body
+                    continue
+                if bterm:
+                    rest, rterm = self._block(list(st.orelse) + list(stmts[i + 1:]), ctx)
+                    out |= self._inter(body, rest)
+                    return out, rterm
+                orelse, oterm = self._block(st.orelse, ctx)
+                if oterm:
+                    # the else branch leaves: what follows runs only after `body`
+                    rest, rterm = self._block(list(stmts[i + 1:]), ctx)
+                    out |= self._inter(body | rest, orelse)
+                    return out, rterm
+                out |= self._inter(body, orelse)
+                continue
+            if isinstance(st, ast.Try):
+                body, bterm = self._block(st.body + st.orelse, ctx)
+                out |= body
+                fin, fterm = self._block(st.finalbody, ctx)
+                out |= fin
+                if bterm and all(self._block(h.body, ctx)[1] for h in st.handlers):
+                    return out, True
+                continue
+            if isinstance(st, (ast.For, ast.AsyncFor)):
+                out |= self._expr(st.iter, ctx)
+                out |= self._block(st.body, ctx)[0]
+                continue
+            if isinstance(st, ast.While):
+                out |= self._expr(st.test, ctx)
+                continue
+            if isinstance(st, (ast.With, ast.AsyncWith)):
+                for it in st.items:
+                    out |= self._expr(it.context_expr, ctx)
+                b, t = self._block(st.body, ctx)
+                out |= b
+                if t:
+                    return out, True
+                continue
+            # simple statements: every expression field
+            for f in ast.iter_child_nodes(st):
+                if isinstance(f, ast.expr):
+                    out |= self._expr(f, ctx)
+        return out, False
+
+    def _is_cache_guard(self, test, ctx):
+        return (
+            isinstance(test, ast.UnaryOp)
+            and isinstance(test.op, ast.Not)
+            and isinstance(test.operand, ast.Attribute)
+            and test.operand.attr == "_determ_token"
+        )
+
+    # ---- expressions
+    def _expr(self, e, ctx):
+        owner, stack, selfname = ctx
+        if e is None:
+            return set()
+        if isinstance(e, ast.Lambda):
+            return set()
+        if isinstance(e, ast.IfExp):
+            return self._expr(e.test, ctx) | self._inter(self._expr(e.body, ctx), self._expr(e.orelse, ctx))
+        if isinstance(e, ast.BoolOp):
+            out = self._expr(e.values[0], ctx)
+            return out
+        if isinstance(e, ast.Call):
+            f = e.func
+            if (
+                isinstance(f, ast.Attribute)
+                and f.attr == "operand"
+                and isinstance(f.value, ast.Name)
+                and f.value.id == selfname
+            ):
+                if e.args and isinstance(e.args[0], ast.Constant) and isinstance(e.args[0].value, str):
+                    return {e.args[0].value}
+                return {ALL}
+        if isinstance(e, ast.Attribute):
+            v = e.value
+            is_self = isinstance(v, ast.Name) and v.id == selfname
+            is_super = isinstance(v, ast.Call) and isinstance(v.func, ast.Name) and v.func.id == "super"
+            if is_self or is_super:
+                a = e.attr
+                if a == "operands":
+                    return {ALL}
+                if a == "operand" or a in self.stop or a in GENERIC_DRIVERS:
+                    return set()
+                return set(self.reads(a, after=owner if is_super else None, stack=stack))
+        out = set()
+        for ch in ast.iter_child_nodes(e):
+            if isinstance(ch, ast.expr):
+                out |= self._expr(ch, ctx)
+            elif isinstance(ch, ast.comprehension):
+                out |= self._expr(ch.iter, ctx)
+                for c in ch.ifs:
+                    out |= self._expr(c, ctx)
+            elif isinstance(ch, ast.keyword):
+                out |= self._expr(ch.value, ctx)
+        return out
 
 
 def class_row(cls):
-    r = Reader(cls, stop=NAMING_STOP)
+    r = MustReader(cls, stop=NAMING_STOP)
     tok = set(r.reads("_name"))
-    naming_funcs = list(r.funcs_seen)
+    r3 = Reader(cls, stop=NAMING_STOP)  # everything the name MAY reach (for the unstable-site scan)
+    r3.reads("_name")
+    naming_funcs = list(r3.funcs_seen)
     r2 = Reader(cls, stop=STOP_ATTRS)
     sem = set()
     roots = list(SEMANTIC_ROOTS) + sorted(
@@ -235,8 +404,9 @@ def class_row(cls):
         "init_owner": own("__init__"),
         "new_owner": own("__new__"),
         "lower_once_owner": own("lower_once"),
-        "tokenized": r.expand(tok),
-        "semantic": r2.expand(sem),
+        "variadic": r.variadic or r2.variadic,
+        "tokenized": r.expand(tok, r.variadic or r2.variadic),
+        "semantic": r2.expand(sem, r.variadic or r2.variadic),
         "naming_funcs": naming_funcs,
     }
 
@@ -307,7 +477,10 @@ def scan_sites(repo_pkg: Path):
                             if isinstance(n, ast.Call):
                                 kind = _classify_call(n)
                                 if kind:
-                                    sites.append((f"{rel}::{'.'.join(q)}::{kind}", f"{rel}:{n.lineno}"))
+                                    text = " ".join(ast.unparse(n).split())[:70]
+                                    if kind == "tokenize-nonstrict":
+                                        text = "nonstrict " + text
+                                    sites.append((f"{rel}::{'.'.join(q)}::{text}", f"{rel}:{n.lineno}"))
                     else:
                         visit(ch, q)
                 else:
@@ -319,6 +492,60 @@ def scan_sites(repo_pkg: Path):
     for s, loc in sites:
         out.setdefault(s, []).append(loc)
     return out
+
+
+# ------------------------------------------------------------------ pickling facts (C07)
+
+def pickling_facts(rows):
+    """AST facts about `__reduce__` / `_reconstruct` / `Array.__getstate__` on the current tree."""
+    from dask._expr import Expr
+    from dask_array._collection import Array
+    from dask_array._expr import ArrayExpr
+
+    drops = []
+    owners = []
+    seen = set()
+    for cls in [ArrayExpr] + [r["cls"] for r in rows]:
+        ow = _owner(cls, "__reduce__")
+        if ow is None or ow in seen:
+            continue
+        seen.add(ow)
+        owners.append(ow.__name__)
+        fn = _unwrap(ow.__dict__["__reduce__"])
+        node, _f, _l = _func_ast(fn)
+        ok = False
+        if node is not None:
+            for n in ast.walk(node):
+                if isinstance(n, ast.Return) and isinstance(n.value, ast.Tuple) and len(n.value.elts) >= 2:
+                    payload = n.value.elts[1]
+                    for m in ast.walk(payload):
+                        if isinstance(m, ast.Attribute) and m.attr == "deterministic_token" and isinstance(m.value, ast.Name) and m.value.id == "self":
+                            ok = True
+        if not ok:
+            drops.append(ow.__name__)
+    # Expr._reconstruct must hand the token to __new__
+    node, _f, _l = _func_ast(_unwrap(Expr.__dict__["_reconstruct"]))
+    passes = False
+    if node is not None:
+        for n in ast.walk(node):
+            if isinstance(n, ast.Call) and any(k.arg == "_determ_token" for k in n.keywords):
+                passes = True
+    # Array.__getstate__: which entries of __dict__ are removed
+    dropped = []
+    if "__getstate__" in Array.__dict__:
+        node, _f, _l = _func_ast(Array.__dict__["__getstate__"])
+        for n in ast.walk(node):
+            if isinstance(n, ast.Call) and isinstance(n.func, ast.Attribute) and n.func.attr == "pop" and n.args:
+                a = n.args[0]
+                dropped.append(a.value if isinstance(a, ast.Constant) and isinstance(a.value, str) else "<dynamic>")
+            if isinstance(n, ast.Delete):
+                for t in n.targets:
+                    if isinstance(t, ast.Subscript):
+                        a = t.slice
+                        dropped.append(a.value if isinstance(a, ast.Constant) and isinstance(a.value, str) else "<dynamic>")
+            if isinstance(n, ast.Call) and isinstance(n.func, ast.Attribute) and n.func.attr == "clear":
+                dropped.append("<all>")
+    return {"reduce_owners": owners, "reduce_drops_token": drops, "reconstruct_passes_token": passes, "getstate_dropped": dropped}
 
 
 # ------------------------------------------------------------------ Lean emission
@@ -344,10 +571,35 @@ def collect():
         seen[r["name"]] = r
     pkg = Path(dask_array.__file__).resolve().parent
     sites = scan_sites(pkg)
+    # plus every member the name of some class may reach (derived properties such as `_base_chunks`)
+    done = set()
+    for r in rows:
+        for _owner_cls, fn in r["naming_funcs"]:
+            if fn in done:
+                continue
+            done.add(fn)
+            node, file, line0 = _func_ast(fn)
+            if node is None or file is None:
+                continue
+            try:
+                rel = Path(file).resolve().relative_to(pkg.parent).as_posix()
+            except ValueError:
+                continue  # dask/_expr.py base machinery: outside the repository
+            for n in ast.walk(node):
+                if isinstance(n, ast.Call):
+                    kind = _classify_call(n)
+                    if kind:
+                        text = " ".join(ast.unparse(n).split())[:70]
+                        if kind == "tokenize-nonstrict":
+                            text = "nonstrict " + text
+                        site = f"{rel}::{fn.__qualname__}::{text}"
+                        loc = f"{rel}:{line0 + n.lineno - 1}"
+                        if loc not in sites.setdefault(site, []):
+                            sites[site].append(loc)
     return rows, sites
 
 
-def lean_source(rows, sites):
+def lean_source(rows, sites, facts=None):
     L = []
     L.append("/- GENERATED by harness/translate/names.py from /repo's working tree. DO NOT EDIT.")
     L.append("   classes[i] : ArrayExpr subclass; params[i] = _parameters; tokenized[i] = operands its name reads;")
@@ -375,6 +627,16 @@ def lean_source(rows, sites):
     L.append("def unstableSites : List String := [")
     L.append(",\n".join(f"  {_lstr(s)}  /- {', '.join(locs)} -/" for s, locs in sorted(sites.items())))
     L.append("]")
+    if facts is not None:
+        L.append("")
+        L.append("/-- classes that define `__reduce__` (pickling of expression nodes) -/")
+        L.append("def reduceOwners : List String := " + _llist(facts["reduce_owners"]))
+        L.append("/-- those whose `__reduce__` payload does NOT contain `self.deterministic_token` -/")
+        L.append("def reduceDropsToken : List String := " + _llist(facts["reduce_drops_token"]))
+        L.append("/-- `Expr._reconstruct` passes `_determ_token=` to the constructor -/")
+        L.append("def reconstructPassesToken : Bool := " + ("true" if facts["reconstruct_passes_token"] else "false"))
+        L.append("/-- entries of `Array.__dict__` removed by `Array.__getstate__` -/")
+        L.append("def getstateDropped : List String := " + _llist(facts["getstate_dropped"]))
     L.append("")
     L.append("end Dask.Generated.NameTables")
     return "\n".join(L) + "\n"
@@ -384,7 +646,7 @@ def generate(write=True):
     from harness import core
 
     rows, sites = collect()
-    src = lean_source(rows, sites)
+    src = lean_source(rows, sites, pickling_facts(rows))
     changed = core.write_generated("NameTables", src) if write else False
     return rows, sites, changed
 
